@@ -1,17 +1,18 @@
 ------------------------------ MODULE OTExtGen ------------------------------
 (* Generator for C06: sequences of batches on one initialised IKNP instance  *)
 (* with the chunk message sizes the size-level part of OTExt.tla predicts    *)
-(* for the real constants (K = 128, 8 rows per byte, 512 rows per chunk).    *)
+(* for the real constants (K = 128, 8 rows per byte, RealChunkRows rows per   *)
+(* chunk: measured on the implementation, 512 at the pinned commit).          *)
 EXTENDS OTExt, Json
 
-CONSTANTS GenSizes, GenModes, GenLen
+CONSTANTS GenSizes, GenModes, GenLen, RealChunkRows
 VARIABLE seq
 gvars == <<seq>>
 
 GenInit == Init /\ (\A i \in Col : delta[i] = 0) /\ seq = <<>>
 Add == /\ Len(seq) < GenLen
        /\ \E n \in GenSizes : \E m \in GenModes :
-            seq' = Append(seq, [n |-> n, mode |-> m, sizes |-> ChunkSizes(n, 128, 8, 512)])
+            seq' = Append(seq, [n |-> n, mode |-> m, sizes |-> ChunkSizes(n, 128, 8, RealChunkRows)])
        /\ UNCHANGED vars
 GenSpec == GenInit /\ [][Add]_<<vars, seq>>
 Emit == Len(seq) >= 1 => PrintT(<<"VHCASE", ToJson([batches |-> seq])>>)
